@@ -4,6 +4,7 @@ import (
 	"fmt"
 
 	"github.com/aperturerobotics/bifrost/peer"
+	"github.com/aperturerobotics/bifrost/pubsub"
 	"github.com/aperturerobotics/bifrost/pubsub/floodsub"
 	"sort"
 	"strings"
@@ -11,6 +12,7 @@ import (
 	"time"
 
 	"pgregory.net/rapid"
+	"verifharness/internal/gen"
 	"verifharness/internal/vstat"
 )
 
@@ -22,6 +24,9 @@ type c28Case struct {
 	Subs []int `json:"subs"`
 	// Pubs: (node, channel)
 	Pubs [][2]int `json:"pubs"`
+	// Resub[ch] = bitmask of subscribed nodes that had subscribed and released the channel once before, and
+	// subscribe (again) only after the links are up
+	Resub []int `json:"resub,omitempty"`
 }
 
 var c28Channels = []string{"x", "y"}
@@ -54,6 +59,11 @@ func genC28(t *rapid.T) c28Case {
 	nch := rapid.IntRange(1, 2).Draw(t, "nch")
 	for i := 0; i < nch; i++ {
 		c.Subs = append(c.Subs, rapid.IntRange(1, (1<<c.N)-1).Draw(t, "subs"))
+		if rapid.IntRange(0, 2).Draw(t, "hasresub") == 0 {
+			c.Resub = append(c.Resub, rapid.IntRange(0, (1<<c.N)-1).Draw(t, "resub"))
+		} else {
+			c.Resub = append(c.Resub, 0)
+		}
 	}
 	np := rapid.IntRange(1, 6).Draw(t, "npubs")
 	for i := 0; i < np; i++ {
@@ -74,15 +84,38 @@ func checkC28(c c28Case) (o vstat.Outcome) {
 		nodes[i] = n
 	}
 	subscribed := func(i, ch int) bool { return c.Subs[ch]&(1<<i) != 0 }
+	late := func(i, ch int) bool { return ch < len(c.Resub) && c.Resub[ch]&(1<<i) != 0 && subscribed(i, ch) }
+	anyLate := false
+	var earlySubs []pubsub.Subscription
 	for ch := range c.Subs {
 		for i := range nodes {
-			if subscribed(i, ch) {
+			switch {
+			case late(i, ch):
+				// subscribed once and released before any link exists
+				sub, err := nodes[i].ps.AddSubscription(nodes[i].ctx, gen.Key(nodes[i].key), c28Channels[ch])
+				if err != nil {
+					o.Discard = true
+					return
+				}
+				earlySubs = append(earlySubs, sub)
+				anyLate = true
+			case subscribed(i, ch):
 				if err := nodes[i].subscribe(c28Channels[ch]); err != nil {
 					o.Discard = true
 					return
 				}
 			}
 		}
+	}
+	if anyLate {
+		o.Classes = append(o.Classes, "resubscribe-after-links-came-up")
+		// the router has taken note of the early subscriptions before they are released, and of the releases
+		// before the links come up (it evaluates every 100 ms)
+		time.Sleep(160 * time.Millisecond)
+		for _, sub := range earlySubs {
+			sub.Release()
+		}
+		time.Sleep(160 * time.Millisecond)
 	}
 	tp := &tap{}
 	adj := make([]map[int]bool, c.N)
@@ -132,9 +165,24 @@ func checkC28(c c28Case) (o vstat.Outcome) {
 		}
 		return true
 	}
-	if !waitFor(10*time.Second, announced) {
-		o.Discard = true
-		return
+	// late subscribers subscribe now that the links exist (and the routers have seen their new peers)
+	if anyLate {
+		time.Sleep(160 * time.Millisecond)
+	}
+	for ch := range c.Subs {
+		for i := range nodes {
+			if late(i, ch) {
+				if err := nodes[i].subscribe(c28Channels[ch]); err != nil {
+					o.Discard = true
+					return
+				}
+			}
+		}
+	}
+	if !waitFor(15*time.Second, announced) {
+		// a subscriber that never tells a neighbour about its subscription will miss messages: go on, the
+		// delivery clauses decide
+		o.Classes = append(o.Classes, "(subscription-not-announced-within-15s)")
 	}
 	// Barrier: a stream is processed in order by the receiving node, so once an honest message injected by
 	// the harness behind the announcements has reached the receiver's handler, the announcements before it
@@ -316,6 +364,7 @@ var specC28 = vstat.Spec[c28Case]{
 	Assumptions: []string{"'reachable' means connected through nodes subscribed to the channel (non-subscribed nodes drop traffic, see C27)", "quiescence = no tap or handler activity for 260/400 ms (floodsub evaluates every 100 ms)"},
 	Gen:         genC28,
 	Check:       checkC28,
+	Inflight:    true,
 }
 
 func TestC28(t *testing.T)       { vstat.Check(t, specC28) }
